@@ -38,9 +38,22 @@ template <unsigned N, unsigned ES>
 struct RP : Runner {
 	using T = posit<N, ES>;
 	RP(bool sm) { fam = FAM_posit; nbits = N; small = sm; cfg = std::to_string(N) + "," + std::to_string(ES); ops1 = {OP_hexfmt, OP_hexparse, OP_hexstr}; }
+	void extra(const std::string& ha, Rng& g, const std::function<void(int, std::vector<std::string>)>& emit) override {
+		// strings for parse(): the library's own text, without the inner 0x, with X, printed by a wider posit (the top bits are taken),
+		// with a random width prefix, and the generic mutations; the judge evaluates the transcribed parser on the same bytes
+		T x; x.setbits(hexu64(ha)); std::string s = hex_format(x);
+		auto em = [&](const std::string& t) { std::vector<std::string> v; for (unsigned char c : t) { char b[8]; snprintf(b, sizeof b, "%x", c); v.push_back(b); } emit(OP_strassign, v); };
+		size_t ix = s.find("x0x");
+		if (ix != std::string::npos) { std::string t = s; t.erase(ix + 1, 2); em(t); t = s; t[ix] = 'X'; em(t); t = s; t[ix + 2] = 'X'; em(t); }
+		{ posit<N + 5, ES> w; w.setbits(hexu64(ha) << 5 | g.below(32)); em(hex_format(w)); }
+		{ std::string t = std::to_string(g.below(140)) + s.substr(s.find('.')); em(t); }
+		{ std::string t = s; if (t.size() > 1) t.pop_back(); em(t + "pp"); em(t + "g"); }
+		emit_assign_variants(s, g, emit);
+	}
 	static std::string out(const T& p) { auto bb = p.get(); return hex_from_bits(N, [&](unsigned i) { return bb.test(i); }); }
 	std::string run(int op, const std::vector<std::string>& a) override {
 		return guarded([&]() -> std::string {
+			if (op == OP_strassign) { T y; std::string s = string_of(a, 0); if (!parse(s, y)) return "!parse-failed"; return out(y); }
 			T x; x.setbits(hexu64(a[0]));
 			if (op == OP_hexfmt) { std::string s = hex_format(x); T y; if (!parse(s, y)) return "!parse-failed"; return out(y); }
 			if (op == OP_hexparse) { std::stringstream ss; ss << hex_format(x); T y; ss >> y; return out(y); }   // operator>>
